@@ -359,8 +359,52 @@ fn compare_all(sut: &mut Sut, m: &Model, step: usize, op: &MOp) -> CheckResult {
   Ok(())
 }
 
+/// Two distinct resource types with the same `std::any::type_name` (declared in sibling blocks of one function), the same
+/// bytes and the same hash: their per-type state must not alias. Each block hands out closures over its own type.
+type SetFn = Box<dyn Fn(&mut Pie<()>, u8, Option<u16>)>;
+type GetFn = Box<dyn Fn(&mut Pie<()>, u8) -> Option<u16>>;
+fn same_name_types() -> [(SetFn, GetFn, &'static str); 2] {
+  fn ops<K: MapKey<Value=u16> + Clone>(mk: fn(u8) -> K) -> (SetFn, GetFn, &'static str) {
+    (
+      Box::new(move |pie, k, v| { let m = pie.resource_state_mut::<K>().get_global_map_mut(); match v { Some(v) => { m.insert(mk(k), v); } None => { m.remove(&mk(k)); } } }),
+      Box::new(move |pie, k| { let st = pie.resource_state_mut::<K>(); mk(k).read(st).unwrap().copied() }),
+      std::any::type_name::<K>(),
+    )
+  }
+  let a = { #[derive(Clone, PartialEq, Eq, Hash, Debug)] struct Key(u8); impl MapKey for Key { type Value = u16; } ops::<Key>(Key) };
+  let b = { #[derive(Clone, PartialEq, Eq, Hash, Debug)] struct Key(u8); impl MapKey for Key { type Value = u16; } ops::<Key>(Key) };
+  [a, b]
+}
+
+/// Generated sequence of sets/removes/reads over the two same-named types against two reference maps.
+fn same_name_check(ops: &[(u8, u8, Option<u16>)], stats: &mut Stats) -> CheckResult {
+  let types = same_name_types();
+  if types[0].2 == types[1].2 { stats.class("two_resource_types_with_identical_type_name"); }
+  let mut pie: Pie<()> = Pie::default();
+  let mut model: [BTreeMap<u8, u16>; 2] = [BTreeMap::new(), BTreeMap::new()];
+  for (i, (which, k, v)) in ops.iter().enumerate() {
+    let w = (*which % 2) as usize;
+    (types[w].0)(&mut pie, *k, *v);
+    match v { Some(v) => { model[w].insert(*k, *v); } None => { model[w].remove(k); } }
+    for t in 0..2 {
+      for key in 0..3u8 {
+        let got = (types[t].1)(&mut pie, key);
+        if got != model[t].get(&key).copied() {
+          return Err(Failure::new(format!("same-named resource types ({} / {}): after op #{} ({:?}) on type #{}, reading key {} of type #{} yields {:?}, most recently stored {:?}", types[0].2, types[1].2, i, (k, v), w, key, t, got, model[t].get(&key))));
+        }
+      }
+    }
+  }
+  Ok(())
+}
+
 #[derive(Clone, Debug, Serialize, Deserialize, PartialEq, Eq, Hash)]
-pub struct MCase { pub ops: Vec<MOp> }
+pub struct MCase {
+  pub ops: Vec<MOp>,
+  /// (type 0/1, key, value or remove) on two resource types that share their `type_name`.
+  #[serde(default)]
+  pub same_name_ops: Vec<(u8, u8, Option<u16>)>,
+}
 
 fn zero_sized(inner: u8) -> bool { matches!(inner, 3 | 4 | 5 | 8) }
 fn canon_key(k: &MKey) -> MKey {
@@ -402,7 +446,8 @@ fn canon(op: &MOp) -> MOp {
 }
 
 pub fn check(case: &MCase, stats: &mut Stats) -> CheckResult {
-  let case = &MCase { ops: case.ops.iter().map(canon).collect() };
+  same_name_check(&case.same_name_ops, stats)?;
+  let case = &MCase { ops: case.ops.iter().map(canon).collect(), same_name_ops: case.same_name_ops.clone() };
   let mut sut = Sut { pie: Pie::default() };
   let mut m = Model { maps: BTreeMap::new(), slots: vec![Slot::Unset; 6] };
   let mut types_with_equal_raw: BTreeMap<u8, std::collections::BTreeSet<(u8, u8)>> = BTreeMap::new();
@@ -459,7 +504,9 @@ fn mop() -> impl Strategy<Value=MOp> {
     2 => mkey().prop_map(|src| MOp::Copy { src }),
   ]
 }
-pub fn strategy(max: usize) -> impl Strategy<Value=MCase> { proptest::collection::vec(mop(), 1..=max).prop_map(|ops| MCase { ops }) }
+pub fn strategy(max: usize) -> impl Strategy<Value=MCase> {
+  (proptest::collection::vec(mop(), 1..=max), proptest::collection::vec((0u8..2, 0u8..3, proptest::option::of(0u16..4)), 0..=6)).prop_map(|(ops, same_name_ops)| MCase { ops, same_name_ops })
+}
 
 pub fn replay(path: &Path) -> Result<CheckResult, String> {
   let (_, _, c): (_, _, MCase) = driver::load_replay(path)?;
@@ -467,7 +514,7 @@ pub fn replay(path: &Path) -> Result<CheckResult, String> {
 }
 
 pub fn run(tier: Tier, seed: u64) -> i32 {
-  let rule = "proptest-generated operation sequences over four key types with identical raw keys (K1(u8), K2(u8), MapKeyToObj<u8>, MapKeyObjToObj over K1/K2/u8 the zero-sized key types Z1/Z2/() and the wrappers Box<K1>/Box<u8>/Box<Z1>) and two value types: insert / entry().or_insert / entry().and_modify / remove through MapWriter (Resource::write), direct edits through Pie::resource_state_mut().get_global_map_mut(), reads through Resource::read, stamps through all three routes of MapEqualsChecker followed by a change and a check, a copy task through Context::read/Context::write under a real Pie, and raw typed state calls (get, get_mut, set, get_boxed, set_boxed, get_or_set_default(_mut)) with matching and non-matching state types on four resource types; oracle: reference BTreeMap per (key type, key) and a slot model per resource type, every map and every slot compared after every operation; non-trivial = sequence touching >=2 key types with equal raw keys and containing a read after a writer-write after a direct edit; distinct by case hash";
+  let rule = "proptest-generated operation sequences over four key types with identical raw keys (K1(u8), K2(u8), MapKeyToObj<u8>, MapKeyObjToObj over K1/K2/u8 the zero-sized key types Z1/Z2/() and the wrappers Box<K1>/Box<u8>/Box<Z1>) and two value types: insert / entry().or_insert / entry().and_modify / remove through MapWriter (Resource::write), direct edits through Pie::resource_state_mut().get_global_map_mut(), reads through Resource::read, stamps through all three routes of MapEqualsChecker followed by a change and a check, a copy task through Context::read/Context::write under a real Pie, a short sequence over two resource types that share their type_name (same-named structs in sibling blocks), and raw typed state calls (get, get_mut, set, get_boxed, set_boxed, get_or_set_default(_mut)) with matching and non-matching state types on four resource types; oracle: reference BTreeMap per (key type, key) and a slot model per resource type, every map and every slot compared after every operation; non-trivial = sequence touching >=2 key types with equal raw keys and containing a read after a writer-write after a direct edit; distinct by case hash";
   let mut report = Report::new("C14", tier, seed, "exploration", rule);
   let known = Known::load("C14");
   super::prologue(&mut report, &known);
